@@ -307,7 +307,35 @@ def _r3_r9(ctx):
         for bb, tm in b.calls():
             if (callee_name(tm) or "").endswith("::unwrap_or"):
                 dfl.append(norm(T.call_args(bb)[1]))
-        ctx.check([const_of(d) for d in dfl] == [True] and all(len(d) == 3 for d in dfl), "R9", "absent-subnet-condition-matches", ctx.where(b), "unwrap_or default(s): %s" % [show(d) for d in dfl])
+        match_form = None
+        if not dfl:
+            # the same condition written as a match on self.subnet: on the None edge no refusal is reachable before the next
+            # condition is looked at; on the Some edge no acceptance is reachable without a member test
+            none_ret = {bb for bb, idx, s_ in b.stmts() if s_["p"] == (0,) and "rv" in s_ and s_["rv"]["k"] == "agg" and s_["rv"].get("variant") == "None"}
+            some_ret = {bb for bb, idx, s_ in b.stmts() if s_["p"] == (0,) and "rv" in s_ and s_["rv"]["k"] == "agg" and s_["rv"].get("variant") == "Some"}
+            def discr_of_field(bb, tm, fld):
+                d = norm(T.at_term(tm["discr"], bb))
+                if d[0] != "discr":
+                    return False
+                x = norm(d[1])
+                while x[0] in ("ref", "deref"):
+                    x = norm(x[1])
+                return x[0] == "field" and x[2] == fld
+            sw_sub = [bb for bb, tm in b.terms() if tm["k"] == "switch" and discr_of_field(bb, tm, "subnet")]
+            sw_unix = [bb for bb, tm in b.terms() if tm["k"] == "switch" and discr_of_field(bb, tm, "unix")]
+            tests = tuple(bb for x in [b] for bb, tm in x.calls() if (callee_name(tm) or "").rsplit("::", 1)[-1] in ("check_subnet", "contains", "any"))
+            if sw_sub and sw_unix and none_ret and some_ret:
+                absent_ok = all(not (none_ret & cfg.reachable_from(tgt, blocked=tuple(sw_unix))) for sb in sw_sub for _, tgt in discr_edges(cfg, sb, 0))
+                only_absent = bool(tests) and all(not (some_ret & cfg.reachable_from(tgt, blocked=tests)) for sb in sw_sub for _, tgt in discr_edges(cfg, sb, 1))
+                match_form = (absent_ok, only_absent)
+        if match_form is not None:
+            ctx.check(match_form[0], "R9", "absent-subnet-condition-matches", ctx.where(b),
+                      "match form: from the edge where self.subnet is None no refusal may be reachable before the next condition is examined")
+            ctx.check(match_form[1], "R9", "only-an-absent-subnet-list-matches-everyone", ctx.where(b),
+                      "match form: from the edge where self.subnet is Some(list) no acceptance may be reachable without testing the members "
+                      "(an empty list must match nobody)")
+        else:
+            ctx.check([const_of(d) for d in dfl] == [True] and all(len(d) == 3 for d in dfl), "R9", "absent-subnet-condition-matches", ctx.where(b), "unwrap_or default(s): %s" % [show(d) for d in dfl])
         # ... and only an absent list does: the Option that reaches map(any)/unwrap_or(true) is self.subnet itself, not a filtered one
         for bb, tm in b.calls():
             if (callee_name(tm) or "").endswith("::unwrap_or"):
